@@ -4,6 +4,7 @@ import GopatchModel.Generated
 import GopatchModel.Walk
 import GopatchModel.MetaP
 import GopatchModel.Finder
+import GopatchModel.Intervals
 open Gopatch
 
 def errStr : Err → String
@@ -176,6 +177,19 @@ def handleAugment (id : String) (xs : List Sx) : String :=
       let (dst, out, adjs) := Fnd.rewrite src augs
       s!"(res {id} (src {toHex dst}) (augs{String.join (out.map augStr)}) (adjs{String.join (adjs.map (fun a => s!" ({a.1} {a.2})"))}))"
 
+def handleComments (id : String) (xs : List Sx) : String :=
+  let changes : List (List Iv) := (Sx.field xs "changes").map (fun c => match c with
+    | .list (.atom "ivs" :: ivs) => ivs.filterMap (fun i => match i with
+        | .list [a, b] => some { s := a.asNat, e := b.asNat }
+        | _ => none)
+    | _ => [])
+  let comments : List Comment := (Sx.field xs "comments").filterMap (fun c => match c with
+    | .list [a, b, t] => some { pos := a.asNat, stop := b.asNat, text := t.asStr }
+    | _ => none)
+  let survivors := changes.foldl (fun cs ivs => filterComments ivs cs) comments
+  let texts := (survivors.map (·.text)).foldr insertStr []
+  s!"(res {id} (survivors{String.join (texts.map (fun t => " " ++ q t))}))"
+
 def handleLine (line : String) : String :=
   match Sx.ofString line with
   | .list (.atom "case" :: id :: .atom "engine" :: xs) => handleEngine id.asStr xs
@@ -184,6 +198,7 @@ def handleLine (line : String) : String :=
   | .list (.atom "case" :: id :: .atom "walk" :: xs) => handleWalk id.asStr xs
   | .list (.atom "case" :: id :: .atom "front" :: xs) => handleFront id.asStr xs
   | .list (.atom "case" :: id :: .atom "augment" :: xs) => handleAugment id.asStr xs
+  | .list (.atom "case" :: id :: .atom "comments" :: xs) => handleComments id.asStr xs
   | .list (.atom "echo" :: [v]) => canonV (decodeV v)
   | _ => "(bad-op)"
 
